@@ -5,12 +5,14 @@ from .. import sched_gen, sched_impl, sched_suite
 
 PROPERTY = "C01"
 LEAN_MODULE = "IsobarV.Props.C01Float"
-CHECKER_MODULES = ["IsobarV.Props.C01", "IsobarV.Sched.Onset", "IsobarV.Sched.FloatTime", "IsobarV.Props.C01Float"]
+CHECKER_MODULES = ["IsobarV.Props.C01", "IsobarV.Sched.Onset", "IsobarV.Sched.FloatTime", "IsobarV.Sched.FloatSum", "IsobarV.Props.C01Float"]
 THEOREMS = ["IsobarV.C01." + t for t in (
     "onset_closed_form", "firstTick_iff_cdiv", "onset_from_start", "no_drift", "rounding_independent",
     "nudge_shift", "local_time_advances", "performSolo_clock", "solo_clock",
     # the float clock of the implementation (abstract rounding function): lean/IsobarV/Props/C01Float.lean
-    "tick_time_never_drifts", "tick_time_within_guard")] + ["IsobarV.FloatTime.step_exact", "IsobarV.FloatTime.clock_exact"]
+    "tick_time_never_drifts", "tick_time_within_guard", "event_time_never_drifts", "event_time_within_guard")] + [
+    "IsobarV.FloatTime.step_exact", "IsobarV.FloatTime.clock_exact",
+    "IsobarV.FloatSum.kstep_spec", "IsobarV.FloatSum.krun_spec", "IsobarV.FloatSum.kahan_error", "IsobarV.FloatSum.kahan_exact_arithmetic"]
 RULE = ("(a) random histories (1-3 tracks, on/off-grid durations >= 1 tick, quantize/delay starts, nudges, updates) run on the real "
         "Timeline and on the Lean model, diffed tick by tick; (b) single-track runs checked against the closed form "
         "start + ceil(S_k / q) computed in exact rationals; (c) long runs (10^5 .. 2*10^6 ticks) against the closed form. "
@@ -198,8 +200,66 @@ def float_clock_cases(ctx):
                                   "first_failing_clause": "clock after k ticks = fl(k / tpb) (FloatTime.clock_exact)"})
 
 
+# ---- the float event times (Track._advance_next_event_time) against lean/IsobarV/Sched/FloatSum.lean ------------------
+# The model is the same four float operations with an abstract rounding; for the implementation the rounding is IEEE
+# double arithmetic.  Checked here on the real Track object, in exact rational arithmetic:
+#   (i)   the method computes exactly the model's step (kstep with fl = the float operation),
+#   (ii)  the theorem's hypothesis Exact holds on every addition (the two error-recovering subtractions are exact),
+#   (iii) the theorem's conclusion: |next_event_time - exact sum| <= eps*M + eps*(sum|d| + k*eps*M), eps = 2**-53.
+
+def float_sum_cases(ctx):
+    import isobar as iso
+    r = ctx.rng
+    eps = Fraction(1, 2 ** 53)
+    pools = [[0.1], [1 / 3], [0.1, 0.2, 0.7], [1 / 3, 1 / 7, 1 / 9], [0.05, 1.0, 0.3], [1e-3, 2.5, 1 / 48, 1 / 96]]
+    for i in range(ctx.scale(8, 64)):
+        tl = iso.Timeline(tempo=120, output_device=sched_impl.RecDevice(), clock_source=sched_impl.DummyClock(ticks_per_beat=24))
+        tr = iso.Track(tl) if hasattr(iso, "Track") else iso.timelines.track.Track(tl)
+        pool = r.choice(pools) if r.random() < 0.7 else [r.choice([r.random() * 4, r.randint(1, 40) / r.randint(3, 97)]) for _ in range(r.randint(1, 5))]
+        s0 = r.choice([0.0, 0.0, float(r.randint(0, 5000)), r.randint(0, 10 ** 6) / 24])
+        tr.next_event_time = s0
+        tr.next_event_time_error = 0.0
+        k = ctx.scale(40000, 600000)
+        exact = Fraction(s0)
+        sum_abs = Fraction(0)
+        M = abs(Fraction(s0))
+        bad = None
+        for j in range(k):
+            d = pool[j % len(pool)] if r.random() < 0.9 else r.choice(pool)
+            s, c = tr.next_event_time, tr.next_event_time_error
+            tr._advance_next_event_time(d)
+            t, c2 = tr.next_event_time, tr.next_event_time_error
+            y = d - c
+            # (i) the model's step
+            if t != s + y or c2 != (t - s) - y:
+                bad = ("the method does not compute the modelled step", j, (s, c, d, t, c2))
+                break
+            # (ii) Exact
+            if Fraction(t - s) != Fraction(t) - Fraction(s) or Fraction((t - s) - y) != Fraction(t - s) - Fraction(y):
+                bad = ("an error-recovering subtraction is not exact (hypothesis Exact of FloatSum.kahan_error)", j, (s, c, d, t, c2))
+                break
+            exact += Fraction(d)
+            sum_abs += abs(Fraction(d))
+            M = max(M, abs(Fraction(s) + Fraction(y)))
+            if j % 997 == 0 or j == k - 1:
+                bound = eps * M + eps * (sum_abs + (j + 1) * eps * M)
+                if abs(Fraction(t) - exact) > bound:
+                    bad = ("conclusion of FloatSum.kahan_error violated: |time - exact| = %.3e > %.3e" % (
+                        float(abs(Fraction(t) - exact)), float(bound)), j, (s, c, d, t, c2))
+                    break
+        err = float(abs(Fraction(tr.next_event_time) - exact))
+        ctx.case(("float-sum", i, tuple(pool), s0), nontrivial=True, validated=False,
+                 sample={"part": "float event times", "durations": pool[:5], "start": s0, "events": k, "final_error_beats": err})
+        ctx.count("float-sum")
+        if bad:
+            ctx.violation("C01:float-sum", "Track._advance_next_event_time: %s at event %d (s, c, d, t, c') = %r" % bad,
+                          {"suite": "c01-float-sum", "durations": pool, "start": s0, "event": bad[1],
+                           "first_failing_clause": "FloatSum.kahan_error (hypotheses / conclusion on the real floats)"})
+
+
 def run(ctx):
     float_clock_cases(ctx)
+    float_sum_cases(ctx)
     r = ctx.rng
     # (a) model correspondence
     sched_suite.run_suite(ctx, PROF, ctx.scale(1500, 100000), "c01", [], nontrivial, signature_of)
